@@ -1045,7 +1045,14 @@ func checkC14(c *Ctx, r *Report) {
 			key := fname(f) + ":translate-only-if-not-passthrough"
 			ok := false
 			for _, cf := range normFacts(condFacts(in.Block())) {
-				if cl, isC := cf.Cond.(*ssa.Call); isC && !cf.True && cl.Call.StaticCallee() == tp {
+				cond := cf.Cond
+				// `handled, reason := a.tryPassthrough(…)`: the verdict is the bool of the result tuple
+				if ex, isEx := cond.(*ssa.Extract); isEx {
+					if b, isB := ex.Type().Underlying().(*types.Basic); isB && b.Kind() == types.Bool {
+						cond = ex.Tuple
+					}
+				}
+				if cl, isC := cond.(*ssa.Call); isC && !cf.True && cl.Call.StaticCallee() == tp {
 					ok = true
 				}
 			}
